@@ -24,9 +24,27 @@ class Viol:
 PRUNE = object()
 
 
+def _flag_id(e, tracked):
+    """Variable id when e is a tracked flag `x`, or the pointer member `x.ptr` of a tracked
+    handle-like local (Subtree-style unions whose truth is their `ptr`)."""
+    e = strip(e)
+    if e.get("k") == "ref" and e.get("id") in tracked:
+        return e["id"]
+    if e.get("k") == "mem" and e.get("f") == "ptr" and not e.get("arrow"):
+        b = strip(e["b"])
+        if b.get("k") == "ref" and b.get("id") in tracked:
+            return b["id"]
+    return None
+
+
 def _constval(e, env, tracked):
     e = strip(e)
     k = e.get("k")
+    if k == "init":
+        fs = [f for f in e.get("fields", [])]
+        if fs and all(strip(f["e"]).get("k") in ("null", "zero") or (strip(f["e"]).get("k") == "int" and strip(f["e"]).get("v") == 0) for f in fs):
+            return ("c", 0)
+        return None
     if k == "int":
         v = e.get("v")
         return ("c", v)
@@ -58,6 +76,8 @@ def tracked_vars(fn):
             e = strip(e["e"])
         if e.get("k") == "ref":
             cand.add(e["id"])
+        elif e.get("k") == "mem" and e.get("f") == "ptr" and not e.get("arrow") and strip(e["b"]).get("k") == "ref":
+            cand.add(strip(e["b"])["id"])
         elif e.get("k") == "bin" and e["op"] in ("==", "!="):
             l, r = strip(e["l"]), strip(e["r"])
             for a, b2 in ((l, r), (r, l)):
@@ -132,8 +152,9 @@ class Search:
             return env if _truthy(e.get("v")) == truth else None
         if k == "null":
             return env if not truth else None
-        if k == "ref" and e["id"] in self.tracked:
-            return self._refine_eq(env, e["id"], 0, not truth)
+        fid = _flag_id(e, self.tracked)
+        if fid is not None:
+            return self._refine_eq(env, fid, 0, not truth)
         if k == "bin" and e["op"] in ("==", "!="):
             l, r = strip(e["l"]), strip(e["r"])
             for a, b in ((l, r), (r, l)):
